@@ -597,6 +597,32 @@ impl World {
         self.note(format!("clone handle {k}"));
     }
 
+    /// `handles[dst].clone_from(&handles[src])`: by the contract of `Clone` the same as dropping `dst` and cloning `src`
+    pub fn clone_from_injector(&mut self, dst: usize, src: usize) {
+        assert!(dst != src);
+        let (old, new) = (self.handles[dst].stream, self.handles[src].stream);
+        stream_handles_add(&self.reg, old, -1);
+        stream_handles_add(&self.reg, new, 1);
+        if dst < src {
+            let (a, b) = self.handles.split_at_mut(src);
+            a[dst].inj.clone_from(&b[0].inj);
+        } else {
+            let (a, b) = self.handles.split_at_mut(dst);
+            b[0].inj.clone_from(&a[src].inj);
+        }
+        self.handles[dst].stream = new;
+        self.note(format!("handle {dst} (stream {old}) .clone_from(handle {src} (stream {new}))"));
+    }
+
+    pub fn clone_or_clone_from(&mut self, k: usize, rng: &mut Rng) {
+        if self.handles.len() >= 2 && rng.chance(1, 3) {
+            let dst = (k + 1 + rng.below(self.handles.len() - 1)) % self.handles.len();
+            self.clone_from_injector(dst, k);
+        } else {
+            self.clone_injector(k);
+        }
+    }
+
     pub fn drop_injector(&mut self, k: usize) {
         let h = self.handles.swap_remove(k);
         // the counter is decremented before the real handle goes away: a payload drop that
@@ -1465,6 +1491,9 @@ pub fn run_random(opts: &Opts, rep: &mut Report, props: &[&str]) {
             rng.range(1, 2)
         } else if rng.chance(1, 10) {
             hw + rng.range(1, 9)
+        } else if rng.chance(1, 40) {
+            rep.count("histories-with-more-than-64-pool-threads");
+            65 + rng.below(70)
         } else if rng.chance(1, 14) {
             0 // None: the library's default number of threads
         } else {
@@ -1632,7 +1661,7 @@ pub fn run_random(opts: &Opts, rep: &mut Report, props: &[&str]) {
                 }
                 93..=95 if !w.handles.is_empty() => {
                     let k = rng.below(w.handles.len());
-                    w.clone_injector(k);
+                    w.clone_or_clone_from(k, &mut rng);
                     label = "clone".into();
                 }
                 96..=99 if w.handles.len() > 1 => {
@@ -1686,7 +1715,7 @@ pub fn run_random(opts: &Opts, rep: &mut Report, props: &[&str]) {
             // handles outlive the matcher
             let k = w.new_injector();
             if rng.coin() {
-                w.clone_injector(k);
+                w.clone_or_clone_from(k, &mut rng);
             }
             let n = rng.range(1, 30);
             w.push_via(k, n, rng.coin());
